@@ -2,3 +2,5 @@ pub mod alloc;
 pub mod evidence;
 pub mod panic;
 pub mod rng;
+#[cfg(feature = "plonk-std")]
+pub mod sched;
